@@ -37,9 +37,27 @@ pub enum Op {
     /// `encode_with_fixed_block_size` (single-thread) + `Stream::write` to a `ByteSink`
     EncStream { w: Workload },
     /// `FrameBuf` fill (`fill` inter-channel samples, as ints or bytes) + `encode_fixed_size_frame` + `Frame::write`
-    EncFrame { w: Workload, frame_number: usize, fill: usize, as_bytes: bool },
+    /// `keep`: the caller thread keeps its `FrameBuf` object from one such call to the next and re-uses it when
+    /// the shape (channels, block size) matches - an object with a history of its own; the reference uses a new one
+    EncFrame {
+        w: Workload,
+        frame_number: usize,
+        fill: usize,
+        as_bytes: bool,
+        #[serde(default)]
+        keep: bool,
+    },
     /// write of a stream made elsewhere; sink 0 = `ByteSink`, 1 = `MemSink<u64>`
-    Write { w: Workload, sink: u8, precompute: bool },
+    /// `again`: what the owner did with the `Stream` object before the judged write - 0 nothing, 1 wrote it
+    /// once already (same kind of sink), 2 wrote it to the other kind of sink, counted and verified it,
+    /// 3 writes a frame-by-frame copy of it, 4 wrote it to a sink that failed half-way. The reference is always `again` = 0.
+    Write {
+        w: Workload,
+        sink: u8,
+        precompute: bool,
+        #[serde(default)]
+        again: u8,
+    },
     /// write of a stream made elsewhere to a user-defined sink that FAILS at operation
     /// `at_permille`/1000 of the clean write (what a full disk does); the result is the outcome plus the
     /// bits accepted before the failure. What the failed call leaves behind is part of the history.
@@ -65,6 +83,16 @@ impl Op {
             Self::Verify { .. } => "Verify",
             Self::WriteHeader { .. } => "WriteHeader",
         }
+    }
+    /// The call as its reference makes it: new objects without a history of their own.
+    pub fn for_reference(&self) -> Self {
+        let mut o = self.clone();
+        match &mut o {
+            Self::EncFrame { keep, .. } => *keep = false,
+            Self::Write { again, .. } => *again = 0,
+            _ => {}
+        }
+        o
     }
     pub fn w(&self) -> &Workload {
         match self {
@@ -121,6 +149,12 @@ fn fnv_bytes(b: &[u8]) -> u64 {
     h
 }
 
+thread_local! {
+    /// The `FrameBuf` object a caller thread keeps between two `EncFrame { keep: true }` calls (the harness's
+    /// own storage, not the library's).
+    static KEPT_FB: std::cell::RefCell<Option<FrameBuf>> = const { std::cell::RefCell::new(None) };
+}
+
 /// What an operation consumes; made on a helper thread that is then discarded.
 enum Prepared {
     Nothing,
@@ -174,13 +208,14 @@ fn perform_inner(op: &Op, prep: Prepared) -> OpResult {
                 Err(e) => OpResult::Err(format!("{e}")),
             }
         }
-        (Op::EncFrame { w, frame_number, fill, as_bytes }, _) => {
+        (Op::EncFrame { w, frame_number, fill, as_bytes, keep }, _) => {
             let cfg = w.cfg.build(false, None, w.config_block());
             let si = match flacenc::component::StreamInfo::new(w.rate, w.channels, w.bits) {
                 Ok(si) => si,
                 Err(e) => return OpResult::Err(format!("{e}")),
             };
-            let mut fb = match FrameBuf::with_size(w.channels, w.block) {
+            let kept = if *keep { KEPT_FB.with(|k| k.borrow_mut().take()).filter(|fb| fb.channels() == w.channels && fb.size() == w.block) } else { None };
+            let mut fb = match kept.map_or_else(|| FrameBuf::with_size(w.channels, w.block), Ok) {
                 Ok(fb) => fb,
                 Err(e) => return OpResult::Err(format!("{e}")),
             };
@@ -197,7 +232,7 @@ fn perform_inner(op: &Op, prep: Prepared) -> OpResult {
             if let Err(e) = r {
                 return OpResult::Err(format!("fill: {e}"));
             }
-            match flacenc::encode_fixed_size_frame(&cfg, &fb, *frame_number, &si) {
+            let out = match flacenc::encode_fixed_size_frame(&cfg, &fb, *frame_number, &si) {
                 Ok(f) => {
                     let mut sink = ByteSink::new();
                     match f.write(&mut sink) {
@@ -206,9 +241,13 @@ fn perform_inner(op: &Op, prep: Prepared) -> OpResult {
                     }
                 }
                 Err(e) => OpResult::Err(format!("{e}")),
+            };
+            if *keep {
+                KEPT_FB.with(|k| *k.borrow_mut() = Some(fb));
             }
+            out
         }
-        (Op::Write { sink, precompute, .. }, Prepared::Stream(st)) => {
+        (Op::Write { sink, precompute, again, .. }, Prepared::Stream(st)) => {
             let mut st = st;
             if *precompute {
                 let mut out = Stream::with_stream_info(st.stream_info().clone());
@@ -218,6 +257,37 @@ fn perform_inner(op: &Op, prep: Prepared) -> OpResult {
                     out.add_frame(f);
                 }
                 st = out;
+            }
+            match *again {
+                1 | 2 => {
+                    if (*sink == 0) == (*again == 1) {
+                        let mut s = ByteSink::new();
+                        std::hint::black_box((st.write(&mut s).is_ok(), s.into_inner().len()));
+                    } else {
+                        let mut s: MemSink<u64> = MemSink::new();
+                        std::hint::black_box((st.write(&mut s).is_ok(), s.len()));
+                    }
+                    if *again == 2 {
+                        std::hint::black_box((st.count_bits(), st.verify().is_ok()));
+                    }
+                }
+                3 => {
+                    // a copy made frame by frame (the type has no `Clone`), with the original's STREAMINFO
+                    let mut copy = Stream::with_stream_info(st.stream_info().clone());
+                    for n in 0..st.frame_count() {
+                        copy.add_frame(st.frame(n).unwrap().clone());
+                    }
+                    *copy.stream_info_mut() = st.stream_info().clone();
+                    st = copy;
+                }
+                4 => {
+                    use crate::sinks::{Core, ReqSink};
+                    let mut probe = ReqSink(Core::failing(None, false));
+                    let _ = st.write(&mut probe);
+                    let mut failing = ReqSink(Core::failing(Some(probe.0.ops / 2), true));
+                    std::hint::black_box(st.write(&mut failing).is_err());
+                }
+                _ => {}
             }
             if *sink == 0 {
                 let mut s = ByteSink::new();
@@ -316,6 +386,7 @@ fn prepare_elsewhere(op: &Op) -> Prepared {
 
 /// The reference: the operation alone on a fresh thread.
 fn reference(op: &Op) -> OpResult {
+    let op = &op.for_reference();
     let prep = prepare_elsewhere(op);
     let op = op.clone();
     on_fresh_thread(move || perform(&op, prep))
@@ -379,7 +450,7 @@ pub struct RefCache {
 }
 
 fn op_hash(op: &Op) -> u64 {
-    fnv(&serde_json::to_string(op).unwrap())
+    fnv(&serde_json::to_string(&op.for_reference()).unwrap())
 }
 
 fn first_diff(a: &[u8], b: &[u8]) -> String {
@@ -583,6 +654,7 @@ fn gen_op(r: &mut Rng, w: Workload) -> Op {
                 frame_number: *r.pick(&[0usize, 1, 127, 128, 65535, (1usize << 31) - 1]),
                 fill,
                 as_bytes: r.chance(0.4),
+                keep: r.chance(0.35),
                 w,
             }
         }
@@ -590,6 +662,7 @@ fn gen_op(r: &mut Rng, w: Workload) -> Op {
             w,
             sink: r.below(2) as u8,
             precompute: r.chance(0.4),
+            again: if r.chance(0.5) { 0 } else { 1 + r.below(4) as u8 },
         },
         9 => Op::WriteFailing {
             w,
